@@ -434,6 +434,21 @@ func runC12(c *eng.Ctx) {
 	r5 := c.Rule("C12.R5", "C:who-calls", "Hook.Run is called only from handleRunHook; the hook executable is started for --config only from loadHook", 2)
 	whoCalls(c, r5, p.Method(pkgHook, "Hook", "Run"), "Hook.Run", map[string]string{pkgOp + ".(*ShellOperator).handleRunHook": "the single place that executes a hook for a task"},
 		"a hook process is started outside handleRunHook: the execution bypasses rate limiting, result handling and the task queue")
+	// and once: a second execution in the same handler (a warm-up, a retry in place) runs the hook with other inputs
+	// than the task's and outside the result handling
+	if run := p.Method(pkgHook, "Hook", "Run"); run != nil {
+		n := 0
+		inLoop := false
+		for _, s := range p.SitesDyn(run) {
+			if s.In != nil && s.In.Key == pkgOp+".(*ShellOperator).handleRunHook" {
+				n++
+				if eng.LoopOf(s.In.Decl.Body, s.Call.Pos()) != nil {
+					inLoop = true
+				}
+			}
+		}
+		r5.Check(n == 1 && !inLoop, "Hook.Run once per handleRunHook", token.NoPos, "one call, outside loops", fmt.Sprintf("handleRunHook executes the hook at %d places (in a loop: %v): a task must lead to exactly one execution", n, inLoop))
+	}
 	whoCalls(c, r5, p.Method(pkgHook, "Manager", "execCommandOutput"), "Manager.execCommandOutput", map[string]string{pkgHook + ".(*Manager).loadHook": "--config at load time"},
 		"the hook executable is started from an unexpected place")
 }
